@@ -216,6 +216,10 @@ theorem tys_good (hok : C.ok) (uni : Bool) : (ts : TyList) → GoodTys C uni ts
         simp only [tyMore, ite_true, hin, hmore]
 end
 
+theorem parse_ty_at {C : TySyms} (hok : C.ok) (uni : Bool) (ty : Ty) {rest : List Tok} (hst : StopT C rest) :
+    parseTyAt C ((printTy C uni ty ++ rest).length + 1) (printTy C uni ty ++ rest) = some (ty, rest) :=
+  (ty_good hok uni ty).A rest _ hst (Nat.le_refl _)
+
 theorem type_parse_print_core (hok : C.ok) (uni : Bool) (ty : Ty) : parseTy C (printTy C uni ty) = some ty := by
   have h := (ty_good hok uni ty).A [] (printTy C uni ty).length
     ⟨(fun x r h => by cases h), (fun s r h => by cases h)⟩ (by simp)
